@@ -322,7 +322,9 @@ def run(rep, tier, seed, replay_file=None):
 
     # self-test: a corrupted return value must be rejected by the trace spec
     good = None
-    for h in rec + [h for _, h in pairs]:
+    # a history WITHOUT concurrency (single-goroutine driver schedule, no held Add): inside a concurrent run a Len()
+    # that is off by one may still be linearizable, which would make this self-test fail by chance
+    for h in [h for sc, h in pairs if not any(x["op"] == "hold" for x in sc)]:
         if any(e["ev"] == "ret" and e["op"] == "len" for e in h):
             ok, info = validate_one(h)
             if ok:
